@@ -78,7 +78,10 @@ std::string CFG_FN(const std::string& text, const std::string& path, const std::
   {
     StringView target;
     ParseResult r = GetOnDemand(StringView(buf.get(), text.size()), decode_path(path), target);
-    d += "|O:" + std::to_string((int)r.Error());
+    // (an escaped key that fails to decode reports one of the three string-literal codes: only the class is comparable)
+    int oc = (int)r.Error();
+    d += (oc == kParseErrorUnEscaped || oc == kParseErrorEscapedFormat || oc == kParseErrorEscapedUnicode) ? std::string("|O:string")
+                                                                                                          : "|O:" + std::to_string(oc);
     if (r.Error() == kErrorNone) d += "@" + std::to_string(target.data() - buf.get()) + "+" + std::to_string(target.size());
   }
   // 5: ParseSchema of the second text into the parsed first one
